@@ -5,82 +5,20 @@ from .base import StdCheck
 RECIP = "recovery_ack_only_to_users_sent_a_problem_this_incident"
 
 
-def parse_op(line):
-    """(users {id: typeFilter}, events [(ty, reminder, passed, [uids])]) of an N/T line with observation, else None."""
-    if not line.startswith(("N ", "T ")) or " | " not in line:
-        return None
-    groups = line.split(" | ", 1)[1].split(" ; ")
-    if len(groups) != 5:
-        return None
-    users = {}
-    if groups[1].strip() != "-":
-        for w in groups[1].strip().split(","):
-            f = w.split(":")
-            users[int(f[0])] = int(f[3])
-    events = []
-    if groups[2].strip() != "-":
-        for w in groups[2].strip().split(","):
-            t, r, p, us = w.split(":")
-            events.append((int(t), int(r), int(p), [] if us == "_" else [int(x) for x in us.split("+")]))
-    return users, events
-
-
-def cls_stale_notified_problem_users(lines):
-    """F-C03a: the Recovery/Acknowledgement recipients are wrong *only because* a Recovery that was stopped by a
-    notification-level filter (period closed / type filter) did not clear notified_problem_users: the case
-    violates the clause when every Recovery call ends the incident (the property), and does not violate it
-    when only the Recoveries that got past the notification-level filters end it (what the code implements)."""
-    strict, lenient = set(), set()
-    filtered_seen = False
-    strict_bad = lenient_bad = False
-    for l in lines:
-        op = parse_op(l)
-        if op is None:
-            continue
-        users, events = op
-        for ty, _rem, passed, uids in events:
-            if passed and ty in (64, 16):
-                for u in uids:
-                    if users.get(u, 0) & 32:
-                        if u not in strict:
-                            if not filtered_seen:
-                                return False
-                            strict_bad = True
-                        if u not in lenient:
-                            lenient_bad = True
-            if ty == 64:
-                strict.clear()
-                if passed:
-                    lenient.clear()
-                else:
-                    filtered_seen = True
-            elif ty == 32 and passed:
-                strict.update(uids)
-                lenient.update(uids)
-    return strict_bad and not lenient_bad
-
-
-CLASSIFIERS = {"c03_stale_notified_problem_users": cls_stale_notified_problem_users}
+# F-C03a (a Recovery discarded by the type filter kept notified_problem_users) is repaired in /repo (cec0506): its
+# classifier is gone, so a recurrence is reported as a violation.
+CLASSIFIERS = {}
 
 
 def classify(clause, lines):
-    if clause != RECIP:
-        return "unclassified"
-    for name, fn in CLASSIFIERS.items():
-        try:
-            if fn(lines):
-                return name
-        except (ValueError, IndexError, KeyError):
-            pass
     return "unclassified"
 
 
 class C03(StdCheck):
     prop = "C03"
     exhaustive = True
-    required_theorems = ["delivery_only_if", "recovery_ack_recipients_partial", "recovery_ack_recipients_counterexample",
-                         "no_duplicate_problem", "reminder_only_in_hard_unsuppressed_problem", "reminder_spacing",
-                         "model_trace_meets_spec_partial", "model_trace_meets_spec_counterexample"]
+    required_theorems = ["delivery_only_if", "recovery_ack_recipients", "no_duplicate_problem",
+                         "reminder_only_in_hard_unsuppressed_problem", "reminder_spacing", "model_trace_meets_spec"]
     technique = ("Lean 4 proof (four independent checkers over the observed trace, each tied to the code's bookkeeping attributes by an "
                  "invariant; composition of BeginExecuteNotification calls; induction over operation sequences); correspondence by "
                  "exhaustive + random differential execution of Checkable::SendNotifications (through the started NotificationComponent) "
@@ -94,9 +32,11 @@ class C03(StdCheck):
                   "to the code by running the real functions on generated operation sequences and diffing events, executed commands and "
                   "the bookkeeping attributes after every operation; the same specification is evaluated on the implementation's own trace")
     level_note = ("Trusted: Lean kernel (+ propext, Classical.choice, Quot.sound), harness/driver; checkable facts and period open/closed bits "
-                  "are oracle inputs read from the implementation. The second sentence (Recovery/Acknowledgement recipients) is false of the "
-                  "code when a Recovery is stopped by a notification-level filter (known finding F-C03a) and is carried as _partial + "
-                  "_counterexample; reminder spacing is stated for stretches without a hard state change and with a monotone clock (Q-C03).")
+                  "are oracle inputs read from the implementation. The model transcribes the code after the fix: commit cec0506 for F-C03a "
+                  "(known_findings.json, status fixed); all three sentences are proved without hypothesis. 'Current incident' is read as: since "
+                  "the last Recovery the notification object sent or discarded by its type filter - a Recovery merely withheld by the closed "
+                  "notification period does not end it (it is re-sent later to exactly the incident's users). Reminder spacing is stated for "
+                  "stretches without a hard state change and with a monotone clock (Q-C03).")
     trusted_base = [
         "modelled, not verified: command execution itself, cluster sync of the bookkeeping attributes, cold-start stashing "
         "(stashed_notifications), several notification objects per checkable (each object is independent in the code)",
@@ -155,8 +95,6 @@ class C03(StdCheck):
     def matches_known(self, entry, finding):
         fn = CLASSIFIERS.get(entry.get("classifier"))
         if fn is None or finding.kind != "spec":
-            return False
-        if finding.classifier_data.get("clause") != RECIP:
             return False
         # the unminimised failing case must fall into the same class as the minimised one: shrinking must not
         # turn a different root cause into the recorded one
